@@ -31,8 +31,8 @@ CHECKS_FOR = {
     "task_dispatcher.py": ["C03", "C04", "C06", "C07", "C08", "C15", "C16", "C17", "C19", "C02"],
     "event_dispatcher.py": ["C03", "C04", "C18", "C19", "C02", "C11"],
     "state_engine_paths.py": ["C12", "C13", "C01", "C14"],
-    "rest_api_asyncio.py": ["C10", "C16", "C17", "C15"],
-    "rest_api.py": ["C10", "C16", "C17"],
+    "rest_api_asyncio.py": ["C10", "C16", "C17", "C15", "C09", "C11", "C19"],
+    "rest_api.py": ["C10", "C16", "C17", "C19"],
     "store.py": ["C20", "C04"],
     "arn.py": ["C17", "C10"],
     "amqp_0_9_1_messaging_asyncio.py": ["C19"],
